@@ -445,7 +445,7 @@ fn main() {
     let mut t = Trace::from_args();
     let seed = seed_from_env();
     let thorough = arg_str("--tier").as_deref() == Some("thorough");
-    let nseq = arg_u64("--seqs", if thorough { 420 } else { 64 });
+    let nseq = arg_u64("--seqs", if thorough { 300 } else { 24 });
     let len = arg_u64("--len", 40);
     let mut rng = Rng::new(seed);
     directed(&mut t, &mut rng);
@@ -464,7 +464,7 @@ fn main() {
             _ => {}
         }
         let min_temp = if rng.chance(50) { 1 } else { 16 };
-        let full = rng.chance(35);
+        let full = rng.chance(25);
         let mut g = Gen::new(fl, min_temp, 100, full);
         t.seq(&g.s.label(&format!("rand k={} seed={}", k, seed)));
         if fl == Flavour::Cons {
